@@ -50,6 +50,15 @@ def gen_priv(rng, tier):
                 ops.append("call %s ns=%s session=u" % (ep, sp))
         cases.append(Case("sweep-" + name, ops, True, "exhaustive"))
     cases.extend(gen_users(rng, tier, ENDPOINTS))
+    # the archive upload (console config/import, both API versions): the namespace travels in the `tenant` header and the
+    # multipart body has a `tenant` text field as well - every combination of the two, as three restricted users
+    for name, g in (("white-nsa", (1, 0, "nsa", 0, "-")), ("black-nsb", (1, 1, "-", 0, "nsb")), ("white-default", (1, 0, "@", 0, "-"))):
+        ops = ["seed", sess_line("u", g)]
+        for ver in ("v1", "v2"):
+            for h in ("nsa", "nsb", "omit", "public"):
+                for f in ("omit", "nsa", "nsb", "empty"):
+                    ops.append("import %s header=%s form=%s session=u" % (ver, h, f))
+        cases.append(Case("import-" + name, ops, True, "exhaustive"))
     return cases
 
 
@@ -102,7 +111,7 @@ class C18(Prop):
     lean_module = "RNacos.Props.C18"
     level = "proof"
     design_ref = "DESIGN.md §7 C18"
-    models = [ModelRun("priv", gen_priv, lambda c: sum(1 for o in c.ops if o.startswith("call")) >= 5,
+    models = [ModelRun("priv", gen_priv, lambda c: sum(1 for o in c.ops if o.startswith(("call", "import"))) >= 5,
                        spec_needs_impl=True, jobs=8, shrinkable=True, regions={"console.v1_openapi_handlers": region_unchecked},
                        search=lambda rng, b: gen_priv(rng, "thorough")[:b], rule=(
         "the real console App (CheckLogin middleware + console_config) in-process on a complete node; sessions whose "
